@@ -328,6 +328,25 @@ def stepHist (w : World) (ws : List String) : Option (World × String) :=
       let outer := consumeList (pat opat) vs
       let showItem := fun (p : Nat × String) => s!"{p.1}:{p.2}"
       pure (w, "ok " ++ showList (fun (v : Nat × List String) => s!"{v.1}:" ++ showList showItem (consumeList (pat ipat) v.2)) outer)
+  | ["adapt", r, fam, axis, k] => do
+    -- vector k of the given axis through one of the four view families, consumed through iterator
+    -- adaptors (nth, nth_back, skip / step_by, take / rev, last, count) instead of next / next_back
+    let r ← r.toNat?; let k ← k.toNat?
+    let m ← w.get r
+    let rows := axis = "rows"
+    let vec : M (Option (Except Error (List String))) :=
+      if fam = "nth" ∨ fam = "nthmut" then
+        (if rows then m.iterNthRow k else m.iterNthCol k).map some
+      else
+        (if rows then m.iterRows else m.iterCols).map fun vs => (vs[k]?).map Except.ok
+    match vec with
+    | .error e => pure (w, faultStr e)
+    | .ok none => pure (w, "none")
+    | .ok (some (.error e)) => pure (w, "err " ++ e.name)
+    | .ok (some (.ok l)) =>
+      let opt := fun (o : Option String) => o.getD "-"
+      let everyOther := (l.drop 1).zipIdx.filterMap fun p => if p.2 % 2 = 0 then some p.1 else none
+      pure (w, s!"ok n1={opt l[1]?} nb1={opt l.reverse[1]?} ss={showList id everyOther} tr={showList id (l.take 2).reverse} rs={showList id (l.reverse.drop 1)} last={opt l.getLast?} count={l.length}")
   | ["nth", r, kind, n, ipat] => do
     -- iter_nth_row / iter_nth_col and their _mut forms (same adaptor chain)
     let r ← r.toNat?; let n ← n.toNat?
